@@ -982,6 +982,30 @@ pub fn run(out: &mut Out, tier: &str, seed: u64, prop: &str) {
             out.stat("c19.helper_only_texts");
         }
     }
+    // ---- (extension feature) absolute paths with `.` / `..` / empty segments and path-like fragments: implementation vs model ----
+    #[cfg(feature = "ext")]
+    if prop == "C19" || prop == "C18" || prop == "C06" {
+        // every sequence of up to 4 segments over {a, .., ., empty, é} behind the root, alone and before two kinds of fragment
+        let segs = ["a", "..", ".", "", "\u{e9}b"];
+        let mut paths: Vec<String> = vec!["/".into()];
+        let mut cur: Vec<String> = vec![String::new()];
+        for _ in 0..4 {
+            let mut next = Vec::new();
+            for p in &cur { for sg in segs { next.push(format!("{p}/{sg}")); } }
+            paths.extend(next.iter().cloned());
+            cur = next;
+        }
+        for p in &paths {
+            path_norm_case(out, &mut rc, p, &vars);
+            if p.len() <= 8 {
+                for frag in ["x", "subdirectory=a/../b", "../..", "a/./b#c", "", "%41 b", "/abs/../x"] { path_norm_case(out, &mut rc, &format!("{p}#{frag}"), &vars); }
+            }
+        }
+        for t in ["", "rel/x", "./x", "#x", "a#/b", "/srv/pkg.tar.gz#subdirectory=a/../b", "/srv/pkg-1.0.whl#sha256=abc#egg=x", "//srv//x//", "/srv/a b/%41%2F/x.whl", "/../x", "/a/../../x#f", "/a/b/../../../x",
+                  "/srv/\u{65e5}\u{672c}/../p.whl#\u{e9}/..", "/srv/p.whl#", "/srv/dir#x/../p.whl", "/.../x", "/..a/b", "/a../b", "/.a/./.b"] {
+            path_norm_case(out, &mut rc, t, &vars);
+        }
+    }
     // ---- the unnamed parser (extension feature) on targeted and hostile texts: implementation vs model -------
     #[cfg(feature = "ext")]
     if prop == "C19" || prop == "C06" {
@@ -1143,6 +1167,35 @@ fn scheme_of(text: &str) -> Option<&str> {
 fn strip_host_hex(text: &str) -> String {
     let t = text.to_string();
     std::panic::catch_unwind(move || hex(pep508_rs::strip_host(&t))).unwrap_or_else(|_| "panic".into())
+}
+
+/// (extension feature) `VerbatimUrl::from_absolute_path` against the Lean model of `normalize_absolute_path` + `split_fragment`:
+/// the file path of the URL, its fragment (decoded once), or the error class
+#[cfg(feature = "ext")]
+fn path_norm_case(out: &mut Out, rc: &mut ReqCases, text: &str, vars: &[(String, String)]) {
+    out.evaluations += 1;
+    let t = text.to_string();
+    let got = std::panic::catch_unwind(move || match VerbatimUrl::from_absolute_path(&t) {
+        Ok(u) => {
+            let p = u.to_url().to_file_path().map(|p| p.to_string_lossy().to_string()).unwrap_or_else(|()| "?".into());
+            let f = u.to_url().fragment().map(|f| urlencoding::decode(f).map(|c| c.into_owned()).unwrap_or_else(|_| "?".into()));
+            format!("ok {} {}", hex(&p), f.map(|f| hex(&f)).unwrap_or("none".into()))
+        }
+        Err(pep508_rs::VerbatimUrlError::WorkingDirectory(_)) => "relative".to_string(),
+        Err(pep508_rs::VerbatimUrlError::Normalization(..)) => "escapes".to_string(),
+        Err(e) => format!("err-other {e}"),
+    }).unwrap_or_else(|_| "panic".into());
+    if got == "panic" { out.oracle_fail("C06", "VerbatimUrl::from_absolute_path panicked", serde_json::json!({"text": text, "feature": "non-pep508-extensions"})); }
+    // what the property says directly: the fragment of the text (after the first `#`) is the URL's fragment, whatever it contains
+    if let (Some((_, frag)), Some(rest)) = (text.split_once('#'), got.strip_prefix("ok ")) {
+        if rest.split(' ').nth(1) != Some(hex(frag).as_str()) {
+            out.oracle_fail("C18", "a path's fragment is not kept as written (it took part in the normalisation of the path)", serde_json::json!({"text": text, "answer": got, "feature": "non-pep508-extensions"}));
+        }
+    }
+    rc.lines.push(format!("pathnorm\t{}", hex(text)));
+    rc.envs.push(vars.to_vec());
+    out.impl_out.push(got);
+    out.stat("pathnorm.cases");
 }
 
 /// `split_scheme` / `split_extras` of the implementation against the Lean model's, on one text
